@@ -322,6 +322,16 @@ fn exec_hex(ws: &[&str]) -> String {
             let (Some(x), Some(b), Ok(s), Ok(e)) = (parse_hex_tok(h), tok_bytes(h), s.parse::<usize>(), e.parse::<usize>()) else { return bad() };
             format!("{} ; {}", show_opt_bytes(guard(|| x[s..=e].to_vec())), show_opt_bytes(guard(|| b[s..=e].to_vec())))
         }
+        ["rangeinclx", h, s, e] => {
+            // the same range value after it was iterated to its end: `RangeInclusive` then carries the flag `exhausted`
+            let (Some(x), Some(b), Ok(s), Ok(e)) = (parse_hex_tok(h), tok_bytes(h), s.parse::<usize>(), e.parse::<usize>()) else { return bad() };
+            let mut r = s..=e;
+            if s <= e {
+                let _ = r.nth(e - s);
+            }
+            let (r1, r2) = (r.clone(), r);
+            format!("{} ; {}", show_opt_bytes(guard(|| x[r1].to_vec())), show_opt_bytes(guard(|| b[r2].to_vec())))
+        }
         ["rangefrom", h, s] => {
             let (Some(x), Some(b), Ok(s)) = (parse_hex_tok(h), tok_bytes(h), s.parse::<usize>()) else { return bad() };
             format!("{} ; {}", show_opt_bytes(guard(|| x[s..].to_vec())), show_opt_bytes(guard(|| b[s..].to_vec())))
